@@ -9,9 +9,10 @@ through /id/ redirection, and websocket upgrades are always refused.  On the rem
 request is served only if a verified client certificate carries a listed public key and the
 permissions attached to that key allow its method and path; otherwise it is refused.
 
-Every theorem below is for ALL handlers / configurations, listen addresses, module route tables,
-id indexes, requests, handler effects `H`, initial states and recursion budgets (= any number of
-/id/ redirects).  Two clauses do not hold of the code as it is; their negations are proved in
+Every theorem below is for ALL handlers / configurations, listen addresses, id indexes, requests,
+handler effects `H`, initial states, recursion budgets (= any number of /id/ redirects) and for
+EVERY routing function `mux` (= every route table modules can register, whatever pattern syntax
+they use; `muxOf` is the instance the driver runs).  Two clauses do not hold of the code as it is; their negations are proved in
 `Witness.lean` (imported here so that it is built and audited with the theorems) and the provable parts are the `_partial` theorems here:
   * "websocket upgrades are always refused"            (case variants, later header values)
   * "missing Origin/Referer is refused"                (when an allowed origin has an empty host)
@@ -30,28 +31,28 @@ variable {σ : Type}
     internal redirect) was chosen by the mux for the path `d.path` and was preceded by a pass of
     the complete gate (remote ACL, websocket, Host, Origin) evaluated on the request carrying
     exactly that path. -/
-theorem every_dispatch_is_gated (H : Bytes → Req → σ → σ) (h : Handler) (idx : Index) (fuel : Nat)
-    (r : Req) (s : σ) (d : Dispatch) (hd : d ∈ (serveHTTP H h idx fuel r s).trace) :
-    Passes h (r.withPath d.path) ∧ route h.pats d.path = .handler d.pat := by
-  rcases serve_trace_gated H h idx fuel r s [] 0 d hd with hd | hd
+theorem every_dispatch_is_gated (H : Bytes → Req → σ → σ) (mux : Bytes → Bytes → Route) (h : Handler) (idx : Index) (fuel : Nat)
+    (r : Req) (s : σ) (d : Dispatch) (hd : d ∈ (serveHTTP H mux h idx fuel r s).trace) :
+    Passes h (r.withPath d.path) ∧ mux r.method d.path = .handler d.pat := by
+  rcases serve_trace_gated H mux h idx fuel r s [] 0 d hd with hd | hd
   · simp at hd
   · exact hd
 
 /-- **State changes only through a dispatched handler.**  Either the server state is what it was,
     or the request ended in a handler that is recorded in the trace (hence gated, by
     `every_dispatch_is_gated`) and the new state is that handler's effect. -/
-theorem state_changes_only_through_dispatch (H : Bytes → Req → σ → σ) (h : Handler) (idx : Index)
+theorem state_changes_only_through_dispatch (H : Bytes → Req → σ → σ) (mux : Bytes → Bytes → Route) (h : Handler) (idx : Index)
     (fuel : Nat) (r : Req) (s : σ) :
-    (serveHTTP H h idx fuel r s).state = s ∨
-    ∃ pat, (serveHTTP H h idx fuel r s).final = .handled pat ∧
-      (⟨pat, (serveHTTP H h idx fuel r s).path⟩ : Dispatch) ∈ (serveHTTP H h idx fuel r s).trace ∧
-      (serveHTTP H h idx fuel r s).state = H pat (r.withPath (serveHTTP H h idx fuel r s).path) s :=
-  serve_state H h idx fuel r s [] 0
+    (serveHTTP H mux h idx fuel r s).state = s ∨
+    ∃ pat, (serveHTTP H mux h idx fuel r s).final = .handled pat ∧
+      (⟨pat, (serveHTTP H mux h idx fuel r s).path⟩ : Dispatch) ∈ (serveHTTP H mux h idx fuel r s).trace ∧
+      (serveHTTP H mux h idx fuel r s).state = H pat (r.withPath (serveHTTP H mux h idx fuel r s).path) s :=
+  serve_state H mux h idx fuel r s [] 0
 
 /-- a refusal at the first pass answers with that refusal and touches nothing -/
-theorem refused_at_entry_untouched (H : Bytes → Req → σ → σ) (h : Handler) (idx : Index) (fuel : Nat)
+theorem refused_at_entry_untouched (H : Bytes → Req → σ → σ) (mux : Bytes → Bytes → Route) (h : Handler) (idx : Index) (fuel : Nat)
     (r : Req) (s : σ) (w : Refusal) (hg : gate h r = .refuse w) :
-    (serveHTTP H h idx (fuel + 1) r s).final = .refused w ∧ Untouched (serveHTTP H h idx (fuel + 1) r s) s := by
+    (serveHTTP H mux h idx (fuel + 1) r s).final = .refused w ∧ Untouched (serveHTTP H mux h idx (fuel + 1) r s) s := by
   simp [serveHTTP, serve, hg, Untouched]
 
 -- ================================================================ local endpoint: Host
@@ -69,12 +70,12 @@ theorem enforceHost_iff_specific_address (cfg : AdminCfg) (a : Addr) (modulePats
 /-- **host gate** (handler level): with host enforcement on, a request whose Host equals the host
     of no allowed origin reaches no handler — on any route, module routes and /id/ targets included —
     and changes no state. -/
-theorem host_gate (H : Bytes → Req → σ → σ) (h : Handler) (idx : Index) (fuel : Nat) (r : Req) (s : σ)
+theorem host_gate (H : Bytes → Req → σ → σ) (mux : Bytes → Bytes → Route) (h : Handler) (idx : Index) (fuel : Nat) (r : Req) (s : σ)
     (he : h.enforceHost = true) (hh : ∀ a ∈ h.allowed, a.host ≠ r.host) :
-    Untouched (serveHTTP H h idx fuel r s) s := by
+    Untouched (serveHTTP H mux h idx fuel r s) s := by
   apply serve_untouched_of_no_dispatch
   intro d hd
-  obtain ⟨⟨c, hp⟩, _⟩ := every_dispatch_is_gated H h idx fuel r s d hd
+  obtain ⟨⟨c, hp⟩, _⟩ := every_dispatch_is_gated H mux h idx fuel r s d hd
   have hl := ((gate_pass_iff h _ c).1 hp).2
   rw [localGate_withPath] at hl
   obtain ⟨a, ha, heq⟩ := (checkHost_iff h r).1 ((localGate_pass h r c hl).2.1 he)
@@ -83,10 +84,10 @@ theorem host_gate (H : Bytes → Req → σ → σ) (h : Handler) (idx : Index) 
 /-- **host gate** (configuration level, the property's first clause): on a local endpoint bound to
     a specific address, for every origin list, enforce flag, module route table, id index and
     request: if the Host header is not an allowed origin, nothing is served and nothing changes. -/
-theorem local_endpoint_rejects_foreign_host (H : Bytes → Req → σ → σ) (cfg : AdminCfg) (a : Addr)
+theorem local_endpoint_rejects_foreign_host (H : Bytes → Req → σ → σ) (mux : Bytes → Bytes → Route) (cfg : AdminCfg) (a : Addr)
     (modulePats : List Bytes) (idx : Index) (fuel : Nat) (r : Req) (s : σ)
     (hs : SpecificAddress a) (hh : ¬ HostAllowed cfg a r.host) :
-    Untouched (serveHTTP H (newAdminHandler cfg a false modulePats) idx fuel r s) s := by
+    Untouched (serveHTTP H mux (newAdminHandler cfg a false modulePats) idx fuel r s) s := by
   apply host_gate
   · exact (enforceHost_iff_specific_address cfg a modulePats).2 hs
   · intro al hal heq
@@ -97,14 +98,14 @@ theorem local_endpoint_rejects_foreign_host (H : Bytes → Req → σ → σ) (c
 
 /-- **origin gate** (handler level): with origin enforcement on, a request whose Origin (else
     Referer) does not parse, or names no allowed origin, reaches no handler and changes no state. -/
-theorem origin_gate (H : Bytes → Req → σ → σ) (h : Handler) (idx : Index) (fuel : Nat) (r : Req) (s : σ)
+theorem origin_gate (H : Bytes → Req → σ → σ) (mux : Bytes → Bytes → Route) (h : Handler) (idx : Index) (fuel : Nat) (r : Req) (s : σ)
     (he : h.enforceOrigin = true)
     (ho : ¬ ((getOrigin r).ok = true ∧
               ∃ a ∈ h.allowed, (a.scheme = [] ∨ a.scheme = (getOrigin r).scheme) ∧ a.host = (getOrigin r).host)) :
-    Untouched (serveHTTP H h idx fuel r s) s := by
+    Untouched (serveHTTP H mux h idx fuel r s) s := by
   apply serve_untouched_of_no_dispatch
   intro d hd
-  obtain ⟨⟨c, hp⟩, _⟩ := every_dispatch_is_gated H h idx fuel r s d hd
+  obtain ⟨⟨c, hp⟩, _⟩ := every_dispatch_is_gated H mux h idx fuel r s d hd
   have hl := ((gate_pass_iff h _ c).1 hp).2
   rw [localGate_withPath] at hl
   obtain ⟨hok, hal⟩ := (localGate_pass h r c hl).2.2 he
@@ -112,10 +113,10 @@ theorem origin_gate (H : Bytes → Req → σ → σ) (h : Handler) (idx : Index
 
 /-- **origin gate** (configuration level, second clause): on a local endpoint with
     `enforce_origin`, a request whose Origin/Referer is not an allowed origin is never served. -/
-theorem local_endpoint_rejects_foreign_origin (H : Bytes → Req → σ → σ) (cfg : AdminCfg) (a : Addr)
+theorem local_endpoint_rejects_foreign_origin (H : Bytes → Req → σ → σ) (mux : Bytes → Bytes → Route) (cfg : AdminCfg) (a : Addr)
     (modulePats : List Bytes) (idx : Index) (fuel : Nat) (r : Req) (s : σ)
     (he : cfg.enforceOrigin = true) (ho : ¬ OriginAllowed cfg a (getOrigin r)) :
-    Untouched (serveHTTP H (newAdminHandler cfg a false modulePats) idx fuel r s) s := by
+    Untouched (serveHTTP H mux (newAdminHandler cfg a false modulePats) idx fuel r s) s := by
   apply origin_gate
   · simpa [newAdminHandler] using he
   · rintro ⟨hok, al, hal, hsch, hhost⟩
@@ -131,11 +132,11 @@ but the origin with an empty host; it is refused unless an allowed origin has an
 /-- **missing origin**, provable part: excluded are configurations in which some allowed origin has
     an empty host (decidable: `(allowedOrigins cfg.origins a).all (·.host ≠ [])`).  The hypothesis
     on `refererUrl` is the table fact `url.Parse("") = &URL{}`. -/
-theorem origin_missing_refused_partial (H : Bytes → Req → σ → σ) (cfg : AdminCfg) (a : Addr)
+theorem origin_missing_refused_partial (H : Bytes → Req → σ → σ) (mux : Bytes → Bytes → Route) (cfg : AdminCfg) (a : Addr)
     (modulePats : List Bytes) (idx : Index) (fuel : Nat) (r : Req) (s : σ)
     (he : cfg.enforceOrigin = true) (hm : OriginMissing r) (hparse : r.refererUrl = ⟨true, [], []⟩)
     (hex : (allowedOrigins cfg.origins a).all (fun al => al.host != []) = true) :
-    Untouched (serveHTTP H (newAdminHandler cfg a false modulePats) idx fuel r s) s := by
+    Untouched (serveHTTP H mux (newAdminHandler cfg a false modulePats) idx fuel r s) s := by
   apply origin_gate
   · simpa [newAdminHandler] using he
   · rintro ⟨_, al, hal, _, hhost⟩
@@ -145,22 +146,46 @@ theorem origin_missing_refused_partial (H : Bytes → Req → σ → σ) (cfg : 
     rw [this] at hhost
     simp [hhost] at hne
 
+/-- **CORS headers are granted only to allowed origins**: `Access-Control-Allow-Origin` (and, for
+    OPTIONS, the other `Access-Control-Allow-*` headers) is present on a response only if origin
+    enforcement is on and the request's Origin/Referer parses and names an allowed origin. -/
+theorem cors_only_for_allowed_origin (H : Bytes → Req → σ → σ) (mux : Bytes → Bytes → Route) (h : Handler)
+    (idx : Index) (fuel : Nat) (r : Req) (s : σ) (hc : (serveHTTP H mux h idx fuel r s).cors ≠ 0) :
+    h.enforceOrigin = true ∧ (getOrigin r).ok = true ∧
+      ∃ a ∈ h.allowed, (a.scheme = [] ∨ a.scheme = (getOrigin r).scheme) ∧ a.host = (getOrigin r).host := by
+  rcases serve_cors H mux h idx fuel r s [] 0 with hle | ⟨p, c', hne, hp⟩
+  · exact absurd (Nat.le_zero.1 hle) hc
+  · have hl := ((gate_pass_iff h _ c').1 hp).2
+    rw [localGate_withPath] at hl
+    cases heo : h.enforceOrigin with
+    | false =>
+      unfold localGate at hl
+      split at hl
+      · cases hl
+      · split at hl
+        · cases hl
+        · simp [heo] at hl
+          exact absurd hl.symm hne
+    | true =>
+      obtain ⟨hok, hal⟩ := (localGate_pass h r c' hl).2.2 heo
+      exact ⟨rfl, hok, (originAllowed_iff h _).1 hal⟩
+
 -- ================================================================ websocket
 
 /-
 FULL STATEMENT (does not hold, see `Witness.websocket_refused_full_fails`):
-    IsWebsocketUpgrade r → Untouched (serveHTTP H h idx fuel r s) s
+    IsWebsocketUpgrade r → Untouched (serveHTTP H mux h idx fuel r s) s
 The code tests `strings.Contains(r.Header.Get("Upgrade"), "websocket")`: first value only, case-sensitive.
 -/
 /-- **websocket upgrades**, provable part: a request whose FIRST Upgrade value contains the
     lower-case token is refused before any handler, on every endpoint (decidable exclusion of the
     rest: `containsSub (firstUpgrade r) sWebsocket`). -/
-theorem websocket_refused_partial (H : Bytes → Req → σ → σ) (h : Handler) (idx : Index) (fuel : Nat)
+theorem websocket_refused_partial (H : Bytes → Req → σ → σ) (mux : Bytes → Bytes → Route) (h : Handler) (idx : Index) (fuel : Nat)
     (r : Req) (s : σ) (hw : containsSub (firstUpgrade r) sWebsocket = true) :
-    Untouched (serveHTTP H h idx fuel r s) s := by
+    Untouched (serveHTTP H mux h idx fuel r s) s := by
   apply serve_untouched_of_no_dispatch
   intro d hd
-  obtain ⟨⟨c, hp⟩, _⟩ := every_dispatch_is_gated H h idx fuel r s d hd
+  obtain ⟨⟨c, hp⟩, _⟩ := every_dispatch_is_gated H mux h idx fuel r s d hd
   have hl := ((gate_pass_iff h _ c).1 hp).2
   rw [localGate_withPath] at hl
   have := (localGate_pass h r c hl).1
@@ -173,11 +198,11 @@ theorem websocket_refused_partial (H : Bytes → Req → σ → σ) (h : Handler
     is re-authorised with its own path.  Whenever a handler runs for path `d.path`, the connection
     has verified chains, one of their certificates carries a key listed in an ACL entry, and every
     permission of that entry allows the request's method and `d.path`. -/
-theorem remote_served_only_if_authorised (H : Bytes → Req → σ → σ) (h : Handler) (idx : Index)
+theorem remote_served_only_if_authorised (H : Bytes → Req → σ → σ) (mux : Bytes → Bytes → Route) (h : Handler) (idx : Index)
     (fuel : Nat) (r : Req) (s : σ) (acl : List Access) (hr : h.remote = some acl)
-    (d : Dispatch) (hd : d ∈ (serveHTTP H h idx fuel r s).trace) :
+    (d : Dispatch) (hd : d ∈ (serveHTTP H mux h idx fuel r s).trace) :
     ∃ chains, r.tls = some chains ∧ Authorised acl chains r.method d.path := by
-  obtain ⟨⟨c, hp⟩, _⟩ := every_dispatch_is_gated H h idx fuel r s d hd
+  obtain ⟨⟨c, hp⟩, _⟩ := every_dispatch_is_gated H mux h idx fuel r s d hd
   have hn := ((gate_pass_iff h _ c).1 hp).1
   rcases (aclGate_none_iff h _).1 hn with hnone | ⟨acl', chains, hacl, htls, hscan⟩
   · rw [hr] at hnone; cases hnone
@@ -185,11 +210,11 @@ theorem remote_served_only_if_authorised (H : Bytes → Req → σ → σ) (h : 
     exact ⟨chains, htls, chainScan_allow_authorised acl r.method d.path chains hscan⟩
 
 /-- **remote: no listed key ⇒ 401, nothing served, nothing changed.** -/
-theorem remote_unlisted_identity_401 (H : Bytes → Req → σ → σ) (h : Handler) (idx : Index) (fuel : Nat)
+theorem remote_unlisted_identity_401 (H : Bytes → Req → σ → σ) (mux : Bytes → Bytes → Route) (h : Handler) (idx : Index) (fuel : Nat)
     (r : Req) (s : σ) (acl : List Access) (chains : List (List Nat))
     (hr : h.remote = some acl) (ht : r.tls = some chains) (hk : ¬ KeyListed acl chains) :
-    (serveHTTP H h idx (fuel + 1) r s).final = .refused .aclIdentity ∧
-    Untouched (serveHTTP H h idx (fuel + 1) r s) s := by
+    (serveHTTP H mux h idx (fuel + 1) r s).final = .refused .aclIdentity ∧
+    Untouched (serveHTTP H mux h idx (fuel + 1) r s) s := by
   apply refused_at_entry_untouched
   have hc := (chainScan_none acl r.method r.path chains).2 hk
   simp [gate, aclGate, hr, ht, hc]
@@ -197,25 +222,25 @@ theorem remote_unlisted_identity_401 (H : Bytes → Req → σ → σ) (h : Hand
 /-- **remote endpoint, configuration level**: the handler built for the remote endpoint of a
     configuration with access controls serves a request only if it is authorised; Host and
     Origin play no role there. -/
-theorem remote_endpoint_serves_only_authorised (H : Bytes → Req → σ → σ) (cfg : AdminCfg) (a : Addr)
+theorem remote_endpoint_serves_only_authorised (H : Bytes → Req → σ → σ) (mux : Bytes → Bytes → Route) (cfg : AdminCfg) (a : Addr)
     (modulePats : List Bytes) (idx : Index) (fuel : Nat) (r : Req) (s : σ) (acl : List Access)
     (hc : cfg.remote = some acl)
-    (hserved : Served (serveHTTP H (newAdminHandler cfg a true modulePats) idx fuel r s)) :
+    (hserved : Served (serveHTTP H mux (newAdminHandler cfg a true modulePats) idx fuel r s)) :
     ∃ chains, r.tls = some chains ∧ KeyListed acl chains ∧
-      ∀ d ∈ (serveHTTP H (newAdminHandler cfg a true modulePats) idx fuel r s).trace,
+      ∀ d ∈ (serveHTTP H mux (newAdminHandler cfg a true modulePats) idx fuel r s).trace,
         Authorised acl chains r.method d.path := by
   have hr : (newAdminHandler cfg a true modulePats).remote = some acl := by simpa [newAdminHandler] using hc
-  cases ht : (serveHTTP H (newAdminHandler cfg a true modulePats) idx fuel r s).trace with
+  cases ht : (serveHTTP H mux (newAdminHandler cfg a true modulePats) idx fuel r s).trace with
   | nil => exact absurd ht hserved
   | cons d0 t =>
     obtain ⟨chains, htls, hauth⟩ :=
-      remote_served_only_if_authorised H _ idx fuel r s acl hr d0 (by rw [ht]; simp)
+      remote_served_only_if_authorised H mux _ idx fuel r s acl hr d0 (by rw [ht]; simp)
     refine ⟨chains, htls, ?_, ?_⟩
     · obtain ⟨c, hc, k, hk, ac, hac, hka, _⟩ := hauth
       exact ⟨c, hc, k, hk, ac, hac, hka⟩
     · intro d hd
       obtain ⟨chains', htls', hauth'⟩ :=
-        remote_served_only_if_authorised H _ idx fuel r s acl hr d (by rw [ht]; exact hd)
+        remote_served_only_if_authorised H mux _ idx fuel r s acl hr d (by rw [ht]; exact hd)
       rw [htls] at htls'; cases htls'
       exact hauth'
 
@@ -224,9 +249,9 @@ theorem remote_endpoint_serves_only_authorised (H : Bytes → Req → σ → σ)
 /-- **termination**: when the `/id/` chain of the request path ends within `n` hops (what the
     driver and the harness check before running a case; always true for an index whose targets do
     not lead back to `/id/`), a budget of `n + 1` passes is never exhausted. -/
-theorem serve_never_runs_out_of_fuel (H : Bytes → Req → σ → σ) (h : Handler) (idx : Index) :
+theorem serve_never_runs_out_of_fuel (H : Bytes → Req → σ → σ) (mux : Bytes → Bytes → Route) (h : Handler) (idx : Index) :
     ∀ (n : Nat) (r : Req) (s : σ) (tr : List Dispatch) (c : Nat),
-      (idChain idx n r.path).isSome = true → (serve H h idx (n + 1) r s tr c).final ≠ .fuel := by
+      (idChain idx n r.path).isSome = true → (serve H mux h idx (n + 1) r s tr c).final ≠ .fuel := by
   intro n
   induction n with
   | zero =>
@@ -282,9 +307,9 @@ def exPats : List Bytes := [str "/probe/"]
 
 -- every_dispatch_is_gated / state_changes_only_through_dispatch: a request that IS served, through an
 -- /id/ redirect into a module route: two dispatches, state changed once
-example : (serveHTTP count (newAdminHandler exCfg exAddr false exPats) exIdx 3 exGood 0).trace
+example : (serveReal count (newAdminHandler exCfg exAddr false exPats) exIdx 3 exGood 0).trace
     = [⟨str "/id/", str "/id/item"⟩, ⟨str "/probe/", str "/probe/x"⟩] := by decide
-example : (serveHTTP count (newAdminHandler exCfg exAddr false exPats) exIdx 3 exGood 0).state = 1 := by decide
+example : (serveReal count (newAdminHandler exCfg exAddr false exPats) exIdx 3 exGood 0).state = 1 := by decide
 -- refused_at_entry_untouched
 example : gate (newAdminHandler exCfg exAddr false exPats) exEvil = .refuse .host := by decide
 -- enforceHost_iff_specific_address: both sides occur
@@ -301,13 +326,16 @@ example : SpecificAddress exLan ∧ ¬ HostAllowed ⟨none, false, none⟩ exLan
   rcases h with ⟨_, _, _, h⟩
   revert h; decide
 -- … and the conclusion is not vacuous: the same request with an allowed Host is served
-example : Served (serveHTTP count (newAdminHandler exCfg exAddr false exPats) exIdx 3 exGood 0) := by decide
+example : Served (serveReal count (newAdminHandler exCfg exAddr false exPats) exIdx 3 exGood 0) := by decide
 -- origin_gate / local_endpoint_rejects_foreign_origin: right Host, foreign Origin
 def exCsrf : Req := { exGood with origin := str "http://evil.com", originUrl := ⟨true, str "http", str "evil.com"⟩ }
 example : (newAdminHandler exCfg exAddr false exPats).enforceOrigin = true ∧
     ¬ ((getOrigin exCsrf).ok = true ∧ ∃ a ∈ (newAdminHandler exCfg exAddr false exPats).allowed,
         (a.scheme = [] ∨ a.scheme = (getOrigin exCsrf).scheme) ∧ a.host = (getOrigin exCsrf).host) := by decide
 example : gate (newAdminHandler exCfg exAddr false exPats) exCsrf = .refuse .originDenied := by decide
+-- cors_only_for_allowed_origin: the served request above carries the header, an OPTIONS preflight all of them
+example : (serveReal count (newAdminHandler exCfg exAddr false exPats) exIdx 3 exGood 0).cors = 1 ∧
+    (serveReal count (newAdminHandler exCfg exAddr false exPats) exIdx 3 { exGood with method := sOPTIONS } 0).cors = 2 := by decide
 -- origin_missing_refused_partial: default origins have no empty host; the request has no Origin
 def exNoOrigin : Req := { exGood with origin := [], originUrl := emptyUrl }
 example : exCfg.enforceOrigin = true ∧ OriginMissing exNoOrigin ∧ exNoOrigin.refererUrl = ⟨true, [], []⟩ ∧
@@ -322,10 +350,10 @@ def exRemoteAddr : Addr := ⟨str "tcp", [], 2021, .notIP⟩
 def exRemoteReq (m p : String) (chains : List (List Nat)) : Req :=
   ⟨str m, str "whatever", str p, [], [], [], emptyUrl, emptyUrl, some chains⟩
 -- remote_served_only_if_authorised / remote_endpoint_serves_only_authorised: a served request exists …
-example : Served (serveHTTP count (newAdminHandler exRemoteCfg exRemoteAddr true []) [] 3
+example : Served (serveReal count (newAdminHandler exRemoteCfg exRemoteAddr true []) [] 3
     (exRemoteReq "GET" "/config/apps" [[7, 1]]) 0) := by decide
 -- … an /id/ redirect whose target the key may not access is refused at the second pass …
-example : (serveHTTP count (newAdminHandler ⟨none, false, some [⟨[1], [⟨none, some [str "/id/"]⟩]⟩]⟩ exRemoteAddr true [])
+example : (serveReal count (newAdminHandler ⟨none, false, some [⟨[1], [⟨none, some [str "/id/"]⟩]⟩]⟩ exRemoteAddr true [])
     [(str "x", str "/stop")] 3 (exRemoteReq "GET" "/id/x" [[1]]) 0).final = .refused .aclPath := by decide
 -- remote_unlisted_identity_401: hypotheses hold for a client presenting only key 7
 example : (newAdminHandler exRemoteCfg exRemoteAddr true []).remote = some exAcl ∧
